@@ -120,9 +120,9 @@ def extractAliquots : Nat → Str → List Str → Option (Str × List Str)
       extractAliquots fuel rem' (acc ++ [block])
 
 def findDuplicates (l : List Str) : List Str :=
+  -- (for the last element `lst[i:]` is empty, so Python's early `break` changes nothing)
   let rec go : List Str → List Str
     | [] => []
-    | [_] => []
     | x :: rest => if rest.contains x then x :: go rest else go rest
   go l
 
